@@ -175,6 +175,16 @@ def componentwise_calls(prog, method, ts_method: str):
         return None
     leaves = PathTable(prog, method.module, call_hook=hook, unroll=True, structured=True).leaves(method.node.body)
     leaves = [l for l in leaves if l.exit != "raise"]
+    if len(leaves) > 1 and len(leaves) <= 8:
+        # several ways through the method: when one of them makes the calls and another one makes none, that other one skips the
+        # operation for some arguments / state (reported by the caller); anything else is not a component-wise method
+        def n_calls(l):
+            return sum(1 for e in l.events if e[0] == "call" and getattr(getattr(e[2], "func", None), "__name__", "") == "<ts>" + ts_method)
+        with_calls = [l for l in leaves if n_calls(l)]
+        without = [l for l in leaves if not n_calls(l) and not any(e[0] == "loop" for e in l.events)]
+        if len(with_calls) == 1 and len(without) == len(leaves) - 1:
+            componentwise_calls.skipping = [str(l.cond()) for l in without]
+            leaves = with_calls
     if len(leaves) != 1:
         return None
     for e in leaves[0].events:
@@ -190,15 +200,21 @@ def componentwise_calls(prog, method, ts_method: str):
     return calls
 
 
+componentwise_calls.skipping = []
+
+
 def check_componentwise(ck, prog, rule: str, name: str, label: str = None):
     """SeismicRecording3C.<name> applies TimeSeries.<name> to ns, ew and vt, each exactly once, with the caller's arguments."""
     import sympy as _sp
     m = prog.cls("SeismicRecording3C").methods[name]
+    componentwise_calls.skipping = []
     calls = componentwise_calls(prog, m, name)
     if calls is None:
         raise AnalysisError(f"{m.qualname}: the component-wise calls of {name}() were not recognised")
     comps = sorted(c for c, _a in calls)
     problems = []
+    for cond in componentwise_calls.skipping:
+        problems.append(f"a path through {name} returns without touching any component (when {cond[:120]})")
     if comps != ["ew", "ns", "vt"]:
         problems.append(f"{name} is applied to {comps}")
     for c, args in calls:
